@@ -125,6 +125,8 @@ def gen_grid(tape):
     g = GridFile()
     nr = tape.randint(2, 7, "nrows")
     nc = tape.randint(2, 8, "ncols")
+    if tape.coin(0.04, "big_grid"):
+        nr, nc = tape.randint(20, 60, "nrows_big"), tape.randint(20, 80, "ncols_big")
     rs = np.random.RandomState(tape.subseed("values"))
     mag = tape.weighted([("moderate", 5), ("ints", 2), ("mixed", 2), ("huge", 1), ("tiny", 1), ("repeats", 2)], "magnitude")
     if mag == "moderate":
